@@ -121,6 +121,72 @@ class AbsStill(Abs):
         _rec("AbsStill", self, a=a, y=y)
 
 
+# ---- lineage: the line of descent from the declared class to the named one passes through classes that are
+# themselves NOT nameable (abstract / private), or there are two lines (diamond) ------------------------------
+
+
+class AbsStillImpl(AbsStill):
+    """concrete class below an abstract INTERMEDIATE class: Abs (abstract) <- AbsStill (abstract) <- AbsStillImpl"""
+
+    def __init__(self, a: int = 1, y: int = 0, w: int = 0):
+        _rec("AbsStillImpl", self, a=a, y=y, w=w)
+
+    def run(self):
+        return 2
+
+
+class AbsStill2(AbsStill):
+    """second abstract level (only an intermediate, never named)"""
+
+    def __init__(self, a: int = 1):
+        _rec("AbsStill2", self, a=a)
+
+
+class AbsDeepImpl(AbsStill2):
+    """concrete class below TWO abstract intermediates"""
+
+    def __init__(self, a: int = 1, v: bool = False):
+        _rec("AbsDeepImpl", self, a=a, v=v)
+
+    def run(self):
+        return 3
+
+
+class MidAbs(Base, abc.ABC):
+    """abstract intermediate below a CONCRETE base"""
+
+    def __init__(self, a: int = 1, m: int = 0):
+        _rec("MidAbs", self, a=a, m=m)
+
+    @abc.abstractmethod
+    def go(self):
+        ...
+
+
+class MidImpl(MidAbs):
+    """concrete: Base (concrete) <- MidAbs (abstract) <- MidImpl"""
+
+    def __init__(self, a: int = 1, m: int = 0, g: bool = False):
+        _rec("MidImpl", self, a=a, m=m, g=g)
+
+    def go(self):
+        return 1
+
+
+class BelowPrivate(_Private):
+    """public class below a PRIVATE intermediate: Base <- _Private <- BelowPrivate"""
+
+    def __init__(self, a: int = 1, u: int = 0):
+        _rec("BelowPrivate", self, a=a, u=u)
+
+
+class Diamond(SubAdd, SubOver):
+    """reachable from Base along two lines of descent (must still be ONE class of that name)"""
+
+    def __init__(self, a: int = 1, dd: int = 0):
+        _rec("Diamond", self, a=a, dd=dd)
+
+
 # ---- family 4: **kwargs used as a dict (dict_kwargs) -------------------------------------------
 
 
